@@ -206,7 +206,7 @@ class Section(Entity):
 
         if not children:
             for prop in obj.props:
-                self.sections[obj.name].create_property(copy_from=prop, keep_copy_id=keep_id)
+                self.sections[name].create_property(copy_from=prop, keep_copy_id=keep_id)
 
         return self.sections[sec.attrs["entity_id"]]
 
